@@ -26,7 +26,7 @@ def crandn(rng, shape):
     return rng.normal(size=shape) + 1j * rng.normal(size=shape)
 
 
-def make_data(rng, name, K, D, N, lead=(), separation=2.0, E=None):
+def make_data(rng, name, K, D, N, lead=(), separation=2.0, E=None, shared_labels=False):
     """clustered data with K loose clusters; returns dict of arrays the trainer's fit takes"""
     lead = tuple(lead)
     if name in INTEGRATION:
@@ -34,12 +34,16 @@ def make_data(rng, name, K, D, N, lead=(), separation=2.0, E=None):
         F = lead[0]
         E = E or 3
         lab = rng.integers(0, K, size=(F, N))
+        if shared_labels:
+            lab[:] = lab[0]
         a = crandn(rng, (F, K, D))
         obs = np.take_along_axis(a, lab[..., None], axis=1) * crandn(rng, (F, N, 1)) + crandn(rng, (F, N, D)) / separation
         mu = rng.normal(size=(K, E)) * separation
         emb = mu[lab] + rng.normal(size=(F, N, E))
         return {'observation': obs, 'embedding': emb, 'labels': lab}
     lab = rng.integers(0, K, size=(*lead, N))
+    if shared_labels and lead:
+        lab[...] = lab[(0,) * len(lead)]
     if name in COMPLEX_MODELS:
         a = crandn(rng, (*lead, K, D))
         y = np.take_along_axis(a, lab[..., None], axis=-2) * crandn(rng, (*lead, N, 1)) + crandn(rng, (*lead, N, D)) / separation
@@ -47,6 +51,16 @@ def make_data(rng, name, K, D, N, lead=(), separation=2.0, E=None):
         mu = rng.normal(size=(*lead, K, D)) * separation
         y = np.take_along_axis(mu, lab[..., None], axis=-2) + rng.normal(size=(*lead, N, D))
     return {'y': y, 'labels': lab}
+
+
+def permuted_partition_init(rng, labels, K, blur=0.2):
+    """blurred one-hot of the true labels with the class order permuted independently per leading index"""
+    lead = labels.shape[:-1]
+    a = np.moveaxis(np.eye(K)[labels], -1, -2).copy()          # (..., K, N)
+    for idx in np.ndindex(*lead):
+        a[idx] = a[idx][rng.permutation(K)]
+    a = (1 - blur) * a + blur / K
+    return np.ascontiguousarray(a / a.sum(-2, keepdims=True))
 
 
 def make_init(rng, K, N, lead=(), style='positive'):
